@@ -629,6 +629,19 @@ pub fn replay_main(args: &[String]) -> i32 {
     if v.get("format").and_then(|x| x.as_str()) == Some("flurry-sim-c09-1") {
         return crate::c09::replay(&v);
     }
+    if v.get("format").and_then(|x| x.as_str()) == Some("flurry-sim-stamp-1") {
+        let (viol, _) = stamp_arithmetic();
+        return match viol.first() {
+            Some(d) => {
+                println!("REPRODUCED property=C10 class=stamp-arithmetic\n{}", d);
+                1
+            }
+            None => {
+                println!("NOT-REPRODUCED property=C10");
+                0
+            }
+        };
+    }
     if v.get("format").and_then(|x| x.as_str()) == Some("flurry-sim-c14-1") {
         let tier = v.get("tier").and_then(|x| x.as_str()).unwrap_or("quick").to_string();
         let seed = v.get("seed").and_then(|x| x.as_u64()).unwrap_or(DEFAULT_SEED);
@@ -728,6 +741,43 @@ pub fn replay_main(args: &[String]) -> i32 {
             }
         }
     }
+}
+
+/// C10 sub-check: for every legal table length 2^0..2^30 the stamp shifted into `size_ctl` is
+/// negative, recovers the length's stamp, and the control values stamp+1 (finishing) ..
+/// stamp+MAX_RESIZERS of one length never collide with those of another length.
+pub fn stamp_arithmetic() -> (Vec<String>, u64) {
+    use flurry::map_verif::{resize_stamp, MAX_RESIZERS, RESIZE_STAMP_SHIFT};
+    let mut out = Vec::new();
+    let lens: Vec<usize> = (0..=30).map(|i| 1usize << i).collect();
+    let mut ranges: Vec<(isize, isize, usize)> = Vec::new();
+    for &n in &lens {
+        let rs = resize_stamp(n);
+        let base = rs << RESIZE_STAMP_SHIFT;
+        if base >= 0 {
+            out.push(format!("resize_stamp({}) << {} = {} is not negative", n, RESIZE_STAMP_SHIFT, base));
+        }
+        for k in [1isize, 2, 3, MAX_RESIZERS] {
+            let sc = base + k;
+            if sc >= 0 {
+                out.push(format!("size_ctl for length {} with {} as low part is not negative", n, k));
+            }
+            if (sc as usize >> RESIZE_STAMP_SHIFT) as isize != rs {
+                out.push(format!("the stamp of length {} cannot be recovered from size_ctl {:#x} (low part {})", n, sc, k));
+            }
+        }
+        ranges.push((base + 1, base + MAX_RESIZERS, n));
+    }
+    for i in 0..ranges.len() {
+        for j in i + 1..ranges.len() {
+            let (a0, a1, na) = ranges[i];
+            let (b0, b1, nb) = ranges[j];
+            if a0 <= b1 && b0 <= a1 {
+                out.push(format!("control-word ranges of table lengths {} and {} overlap", na, nb));
+            }
+        }
+    }
+    (out, lens.len() as u64)
 }
 
 /* ------------------------------ check (orchestrator) ------------------------------ */
@@ -1037,6 +1087,15 @@ pub fn check_main(args: &[String]) -> i32 {
     let mut pre_extra: BTreeMap<String, u64> = BTreeMap::new();
     let mut pre_samples: Vec<Value> = Vec::new();
     let mut pre_violation: Option<Value> = None;
+    if prop == "C10" {
+        // deterministic, exhaustive: the generation stamp arithmetic for all 31 legal table lengths
+        let (viol, n) = stamp_arithmetic();
+        pre_extra.insert("stamp_arithmetic_table_lengths_checked".into(), n);
+        println!("C10 stamp arithmetic: {} table lengths, {} violations", n, viol.len());
+        if let Some(d) = viol.first() {
+            pre_violation = Some(json!({"format": "flurry-sim-stamp-1", "property": "C10", "tier": tier, "class": "stamp-arithmetic", "detail": d, "run_seed": 0, "index": 0}));
+        }
+    }
     if prop == "C14" {
         let (viol, st) = crate::c14::run(tier, base);
         pre_extra.insert("single_client_capacities_checked".into(), st.capacities_checked);
@@ -1181,7 +1240,7 @@ pub fn report_violation(prop: &str, v: Value) -> i32 {
         let _ = std::fs::remove_file(&seedfile);
     }
     let by_seed = v.get("by_seed").and_then(|x| x.as_bool()).unwrap_or(false);
-    let is_seq = matches!(v.get("format").and_then(|x| x.as_str()), Some("flurry-sim-seq-1") | Some("flurry-sim-c14-1"));
+    let is_seq = matches!(v.get("format").and_then(|x| x.as_str()), Some("flurry-sim-seq-1") | Some("flurry-sim-c14-1") | Some("flurry-sim-stamp-1"));
     let min = if by_seed || is_seq || std::env::var("VERIF_NO_MINIMISE").is_ok() { v.clone() } else { minimise(v.clone(), 90) };
     let _ = std::fs::write(format!("{}/{}-{}-{}-unminimised.json", dir, prop, class, v["run_seed"].as_u64().unwrap_or(0)), serde_json::to_string_pretty(&v).unwrap());
     let path = format!("{}/{}-{}-{}.json", dir, prop, class, v["run_seed"].as_u64().unwrap_or(0));
